@@ -9,6 +9,10 @@ from mcv.ref import riff
 BND = [0, 1, 127, 128, 255]
 
 
+def F_s8(v):
+    return v - 256 if v > 127 else v
+
+
 def build_wav(note, semi, cents, rate=44100, loop_type=2, loops=(), n=12, stereo=False):
     from smpl_extract.akai.sample import SampleAdapter, SampleHeaderConstruct
     from smpl_extract.generalized.wav import WavSampleBuilder
@@ -66,7 +70,8 @@ class Check(CheckBase):
     rule = ("(i) every WAV written by re-running the structural sweeps (AKAI structure sweep of C01, Roland window+header "
             "sweeps of C02 -- all loop modes --, CDDA file cases of C03) walked by an independent RIFF walker + stdlib wave, "
             "each AKAI/Roland case exported a second time into a destination that already holds longer files under the same "
-            "names; "
+            "names; AKAI volumes in which one sample's WAV cannot be built (negative MIDI note): reported files must "
+            "still be well-formed; "
             "(ii) narrow seam SampleHeader parse -> generalized -> WAV builder: root key x semitone x cents bytes -- quick: "
             "the three 256x256 faces through 5 boundary values of the third byte, thorough: the full 256^3 product -- mono, "
             "and the faces again as L/R stereo pairs; loop table: loop type {0..4} x (loop_at, length, duration) corner values "
@@ -110,6 +115,12 @@ class Check(CheckBase):
             c = shard["replay_case"]
             if c.get("origin") in ("c01", "c02"):
                 return self._sweep_case(c, rep)
+            if c.get("origin") == "poison":
+                sub = Report()
+                self._poison(sub)
+                hit = [v for v in sub.violations if v["case"] == c]
+                rep.case(c, ok=not hit, klass="poison", detail=hit[0]["detail"] if hit else None, sig="poison:reported-file-invalid")
+                return
             return header_case(rep, c)
         o = shard.get("origin")
         if "cases" in shard:
@@ -117,6 +128,7 @@ class Check(CheckBase):
                 self._sweep_case(c, rep)
         elif o == "c03":
             self._cdda(rep)
+            self._poison(rep)
         elif o == "faces":
             step = shard.get("step", 1)
             for a in range(shard["lo"], shard["hi"], step):
@@ -191,6 +203,31 @@ class Check(CheckBase):
                 bad.append(f"{p}: {w.errors[:2]}")
         rep.case(case, ok=not bad, klass=f"{c['origin']}:{len(res['reported'])}files", nontrivial=len(res["reported"]) > 0,
                  detail={"errors": bad[:3]} if bad else None, sig=f"{c['origin']}:invalid-wav")
+
+    def _poison(self, rep):
+        """Volumes in which one sample's WAV cannot be built (root key + semitone tuning give a negative MIDI note):
+        whatever the run does about it, every file it REPORTS must be well-formed."""
+        for pos in range(3):
+            for note, semi in ((24, 0xCE), (21, 0x80), (0, 0x9C)):
+                files = []
+                for i in range(3):
+                    hdr = {"note": note, "semi": F_s8(semi)} if i == pos else {}
+                    files.append({"name": ["KICK", "SNARE", "HAT"][i], "n": 40 + i, "chain": [4 + i], "seq": i + 1, "hdr": hdr})
+                spec = {"parts": [{"vols": [{"name": "VOL", "dir": [3], "files": files}]}]}
+                img = A.build_akai(A.model_from_spec(spec))[0]
+                res = tree.full_run(img, cpu_s=30.0, ls_paths=())
+                case = {"origin": "poison", "pos": pos, "note": note, "semi": semi}
+                if res["status"] == "hang":
+                    rep.case(case, ok=False, klass="hang", nontrivial=True, sig="poison:hang")
+                    continue
+                bad = []
+                for p in res["reported"]:
+                    b = res["files"].get(p)
+                    w = riff.validate(b) if b is not None else None
+                    if w is None or w.errors:
+                        bad.append(f"{p}: {(w.errors[:2] if w else 'reported but missing')}")
+                rep.case(case, ok=not bad, klass=f"poison:{res['status']}:{len(res['reported'])}reported", nontrivial=True,
+                         detail={"errors": bad[:3]} if bad else None, sig="poison:reported-file-invalid")
 
     def _cdda(self, rep):
         from mcv.checks import c03
